@@ -43,6 +43,8 @@ type Aggregate struct {
 	NextIndex  int               `json:"next_index"`
 	Wall       float64           `json:"wall_s"`
 	Aborted    bool              `json:"aborted"`
+	Recorded   *Replay           `json:"recorded,omitempty"`
+	AllPrints  []string          `json:"all_prints,omitempty"`
 }
 
 // Finding is a violation claimed by the property under check, with its replay.
@@ -64,6 +66,9 @@ func main() {
 	verbose := flag.Bool("v", false, "print the trace of a replay")
 	dump := flag.Bool("dump", false, "print generated scenarios instead of running them")
 	maxFind := flag.Int("maxfind", 3, "stop after this many distinct findings")
+	markers := flag.Bool("markers", false, "print a marker line to stderr before each run (race attribution)")
+	record := flag.Bool("record", false, "include the replay of the last run in the aggregate")
+	printAll := flag.Bool("printall", false, "include the fingerprint of every run, in order, in the aggregate")
 	cpuprof := flag.String("cpuprofile", "", "write a CPU profile")
 	flag.Parse()
 	procs := 1
@@ -123,10 +128,19 @@ func main() {
 			ag.Runs++
 			continue
 		}
+		if *markers {
+			fmt.Fprintf(os.Stderr, "VERIF-RUN %d\n", i)
+		}
 		rec := &ssim.Recorder{Inner: ssim.NewRandom(ssim.Mix(rs, 77), ssim.Policy{Kind: sc.Cfg.Policy, SwitchProb: sc.Cfg.SwitchProb, Weights: sc.Cfg.Weights, PCTDepth: sc.Cfg.PCTDepth, PCTHorizon: 300})}
 		x := execute(sc, rec, false)
 		res := analyse(x)
 		res.Decisions = len(rec.Log)
+		if *record {
+			ag.Recorded = &Replay{Scenario: *sc, Decisions: append([]int(nil), rec.Log...), Fingerprint: res.Fingerprint}
+		}
+		if *printAll {
+			ag.AllPrints = append(ag.AllPrints, fmt.Sprintf("%d:%s:%d:%d", i, res.Fingerprint, res.Steps, len(res.Violations)))
+		}
 		ag.Runs++
 		ag.Steps += res.Steps
 		ag.States += res.States
